@@ -13,7 +13,7 @@ import (
 
 func init() {
 	suites["sbloom"] = suite{
-		rule: "C37: the fake's clock is driven by the harness ('now t' lines). (1) script-level episodes (init/add/exists/reset scripts with arbitrary k, half, colliding indexes, clock steps around the lock expiry, Delete followed by add = RENAME error path) vs the Lean script model incl. raw state dumps; (2) end-to-end episodes: real NewSlidingBloomFilter/Add/AddMulti/Exists/ExistsMulti/Count/Reset/Delete against the fake, windows 1s..10s, clock steps biased to 0, half-1, half, half+1, server calls and answers vs the Lean glue+script model; '!exists' on every item whose last add is at most half a window old (judged by the specification); non-trivial = distinct op with a key or index",
+		rule: "C37: the fake's clock is driven by the harness ('now t' lines). (1) script-level episodes (init/add/exists/reset scripts with arbitrary k, half, colliding indexes, clock steps around the lock expiry, Delete followed by add = RENAME error path) vs the Lean script model incl. raw state dumps; (2) end-to-end episodes: real NewSlidingBloomFilter/Add/AddMulti/Exists/ExistsMulti/Count/Reset/Delete against the fake, windows 1s..10s, clock steps biased to 0, half-1, half, half+1, server calls and answers vs the Lean glue+script model, further NewSlidingBloomFilter constructions for the same name on the populated server in between ('s.init <half>' lines answered by the real constructor's script call); '!exists' on every item whose last add is at most half a window old (judged by the specification); non-trivial = distinct op with a key or index",
 		run:  runSBloom,
 		replay: func(c *Ctx, lines []string) {
 			ep := &sbfEp{}
@@ -32,6 +32,9 @@ type sbfEp struct {
 	m, k    uint
 	half    int64
 	lastAdd map[string]int64
+	n       uint // constructor arguments of the episode (for a further construction on the same server)
+	rate    float64
+	ro      bool
 }
 
 func (e *sbfEp) state() string {
@@ -90,6 +93,7 @@ func (e *sbfEp) op(c *Ctx, line string) {
 			}
 		}
 		e.lastAdd = map[string]int64{}
+		e.n, e.rate, e.ro = uint(n), math.Float64frombits(rb), w[4] == "ro=1"
 		c.Emit(line, ans+logText(e.srv.takeLog(), e.name), false)
 	case "now":
 		e.now, _ = strconv.ParseInt(w[1], 10, 64)
@@ -97,6 +101,27 @@ func (e *sbfEp) op(c *Ctx, line string) {
 	case "s.state":
 		c.Emit(line, e.state(), false)
 	case "s.init", "s.add", "s.exists", "s.reset":
+		if h, err := strconv.ParseInt(w[len(w)-1], 10, 64); w[0] == "s.init" && err == nil && e.bf != nil && h == e.half {
+			// `s.init <the episode's own half>`: the initialisation script as the PACKAGE runs it, through a
+			// further NewSlidingBloomFilter for the same name on the populated server (a restarted or second
+			// process). The filter value of the episode is replaced by the new one.
+			bf, err := rueidisprob.NewSlidingBloomFilter(&fakeClient{srv: e.srv}, e.name, e.n, e.rate,
+				time.Duration(2*e.half)*time.Millisecond, rueidisprob.WithReadOnlyExists(e.ro))
+			lg := e.srv.takeLog()
+			ans := "no-init-call"
+			if len(lg) == 1 {
+				ans = "bad-call:" + lg[0].name
+				if lg[0].name == "sbfinit" && strings.Join(lg[0].keys, ",") == strings.Join(e.keys5(), ",") && strings.Join(lg[0].args, ",") == w[1] {
+					ans = lg[0].rep.String()
+				}
+			}
+			if err == nil {
+				e.bf = bf
+			}
+			c.Hit("reopen:" + strings.SplitN(ans, ":", 2)[0])
+			c.Emit(line, ans, true)
+			return
+		}
 		var r reply
 		e.srv.mu.Lock()
 		switch w[0] {
@@ -382,6 +407,10 @@ func runSBloom(c *Ctx) {
 				if c.Rng.IntN(3) == 0 {
 					ep.op(c, "gdelete")
 				}
+			}
+			if c.Rng.IntN(7) == 0 {
+				// a further NewSlidingBloomFilter for the same name (restart / second process) must not disturb the filter
+				ep.op(c, fmt.Sprintf("s.init %d", half))
 			}
 		}
 		ep.op(c, "s.state")
